@@ -71,6 +71,43 @@ func vxClusterConfig(cl *vnode.Cluster, proto int, opt func(*ClusterConfig)) *Cl
 
 func vxVoid() *cqlspec.Response { return &cqlspec.Response{Kind: "VOID"} }
 
+// vxBasicHandler is a minimal well-behaved node: PREPARE declares one int bind column per '?', one int
+// result column "v"; EXECUTE returns one row (without metadata when the driver asked to skip it).
+func vxBasicHandler(rc *vnode.ReqCtx) {
+	resCols := []cqlspec.Column{{Keyspace: "ks1", Table: "t", Name: "v", Type: cqlspec.Scalar(cqlspec.Int)}}
+	switch rc.Req.Kind {
+	case "PREPARE":
+		var bind []cqlspec.Column
+		for i, ch := range rc.Req.Statement {
+			if ch == '?' {
+				bind = append(bind, cqlspec.Column{Keyspace: "ks1", Table: "t", Name: "b" + itoa(i), Type: cqlspec.Scalar(cqlspec.Int)})
+			}
+		}
+		if bind == nil {
+			bind = []cqlspec.Column{}
+		}
+		rc.Reply(&cqlspec.Response{Kind: "PREPARED", PreparedIDHex: hexOf([]byte(rc.Req.Statement)), Meta: &cqlspec.Metadata{Columns: bind},
+			ResultMeta: &cqlspec.Metadata{Columns: resCols}})
+	case "EXECUTE":
+		m := &cqlspec.Metadata{Columns: resCols}
+		if rc.Req.Params != nil && rc.Req.Params.SkipMeta {
+			m.NoMetadata = true
+		}
+		rc.Reply(&cqlspec.Response{Kind: "ROWS", Meta: m, Rows: [][]cqlspec.Value{{cqlspec.I64Value(1)}}})
+	default:
+		rc.Reply(vxVoid())
+	}
+}
+
+func hexOf(b []byte) string {
+	const d = "0123456789abcdef"
+	out := make([]byte, 0, 2*len(b))
+	for _, x := range b {
+		out = append(out, d[x>>4], d[x&15])
+	}
+	return string(out)
+}
+
 func TestVxSmokeSession(t *testing.T) {
 	for proto := 1; proto <= 5; proto++ {
 		cl := vnode.NewCluster(vxSpecs(2, 2))
